@@ -149,6 +149,25 @@ def r17_scoping(ctx):
                 return mf
             outs = ai.explore(thunk_s)
             _judge(ctx, ai, outs, f'save({label}, charset={charset})', save, mc, charset, initial, expect, mbytes)
+    # the public entry points: save(filename=...) / save(file=...) and MidiFile(filename=...) / MidiFile(file=...) - everything they
+    # do to messages (not only the part inside _save/_load) happens under the file's charset
+    o, psave = ctx.p.lookup_method(cls, 'save')
+    if psave is not None:
+        ctx.fn(psave)
+        ai.builtin_summaries['open'] = lambda i_, a_, k_, n_: AFile(name=str(a_[0]) if a_ else 'file')
+        for charset in ('utf-16',):
+            for label, (factory, expect) in save_tracks(ctx, ai).items():
+                for how in ('filename', 'file'):
+                    n += 1
+
+                    def thunk_p(how=how, factory=factory):
+                        ai.global_store.pop(KEY, None)
+                        mf = _mf(ctx, ai, charset, AList([AList(factory(), 'MidiTrack')], 'list'))
+                        kw = {'filename': 'out.mid'} if how == 'filename' else {'file': AFile(name='out')}
+                        ai.call_function(psave, [mf], kw)
+                        return mf
+                    outs = ai.explore(thunk_p)
+                    _judge(ctx, ai, outs, f'MidiFile.save({how}=..., {label}, charset={charset})', psave, mc, charset, initial, expect, mbytes)
     ctx.floor('R17.1', n, 28)
     # nested overrides unwind level by level, also on an exception in the innermost block
     for q in ai.inlined:
@@ -290,8 +309,9 @@ def r17_4(ctx):
             seen.append(('encode', list(args), dict(kwargs)))
             return AList([SeqVar('encoded', 255)], 'bytes')
         if isinstance(base, AList) and base.kind in ('bytearray', 'bytes') and name == 'decode':
-            seen.append(('decode', list(args), dict(kwargs), list(base.items)))
-            return StrSym('decoded')
+            res = StrSym('decoded')
+            seen.append(('decode', list(args), dict(kwargs), list(base.items), res))
+            return res
         return _NO
     ai.method_hooks.insert(0, hook)
     for fn, kind in ((enc, 'encode'), (dec, 'decode')):
@@ -319,6 +339,9 @@ def r17_4(ctx):
                 items = seen[0][3]
                 ctx.require(len(items) == 1 and items[0] is payload.items[0], 'R17.4', f'{inst}.operand', w,
                             f'the bytes decoded are {items!r}, not exactly the payload', construct=f'{fn.qname}::operand')
+                ctx.require(outs[0].value is seen[0][4], 'R17.4', f'{inst}.result', w,
+                            f'the result is {outs[0].value!r}, not the decoded text itself (anything done to it afterwards - stripping, '
+                            'normalising, caching - changes what a file loads to)', construct=f'{fn.qname}::result')
             if ok and kind == 'encode':
                 v = outs[0].value
                 ctx.require(isinstance(v, AList) and len(v.items) == 1 and isinstance(v.items[0], SeqVar) and v.items[0].name == 'encoded',
